@@ -199,7 +199,7 @@ func TestC04(t *testing.T) {
 var c02Params = &HistoryParams{MinOps: 15, MaxOps: 50, Cloud: 0, Lag: true, Ranges: true,
 	Weights: map[string]int{"create": 18, "delete": 14, "sched": 20, "phase": 5, "deliver": 14, "unbind": 14, "drop": 0, "reserve": 0,
 		"unreserve": 0, "fipevent": 0, "apirelease": 1, "restart": 6, "resync": 8, "poolapi": 1, "scale": 3},
-	Kinds: []string{"sts", "dp", "dp", "cr", "nscr", "bare", "dppool"}, Policies: []string{"immutable", "never", "never", ""}}
+	Kinds: []string{"sts", "dp", "dp", "cr", "nscr", "bare", "dppool", "stspool", "crpool"}, Policies: []string{"immutable", "never", "never", ""}}
 
 func checkC02(c Case, r *vcore.Rec) *vcore.Failure {
 	o := &ObsC02{}
